@@ -107,12 +107,19 @@ def units(rng, tier):
         vals = [rng.randint(0 if rng.random() < 0.1 else 1, hi) for _ in range(nn)]
         for a in ("greedy", "roundrobin", "bidir", "kk", "multifit"):
             us.append(part_unit(a, rng.choice([2, 5, 16, 31, 32, 33, 40, 64, 65]), vals, rng, fmt=rng.choice(["list", "dict_str", "array"]), cmp="sums" if a in ("kk", "multifit") else "bins", family="large"))
+    # inputs longer than the interpreter's recursion limit for the recursive searches: the call may fail (RecursionError: it does not run
+    # to completion, so nothing is claimed), but if it returns, what it returns must be a partition - never an internal placeholder
+    for nitems in ([1100] if tier == "quick" else [1100, 1500, 2500]):
+        vals = [rng.randint(1, 9) for _ in range(nitems)]
+        us.append(part_unit("cbldm", 2, vals, rng, fmt="list", cmp=None, family="deep-recursion"))
     return us
 
 
 def judge_requests(u, impl, model):
     p = u["params"]
     a = p["algo"]
+    if u.get("family") == "deep-recursion" and impl.get("exc") == "RecursionError":
+        return []
     if "exc" in impl:
         return [("py", None, f"{a}(numbins={p['k']}, items={UN.short(p['vals'],150)}, format {p['fmt']}, {p.get('objective','')}{p.get('flags','')}) did not complete: {impl['exc']}")]
     m = malformed(impl)
